@@ -68,8 +68,13 @@ static int serve(const upd_cfg *cfg, zckDL *dl, const char *range, body_cb cb, u
     res->body_bytes += body.n;
     size_t piece = cfg->piece > 0 ? (size_t)cfg->piece : 16384;
     int ok = 1;
-    for(size_t pos = 0; pos < body.n; pos += piece) {
-        size_t len = body.n - pos < piece ? body.n - pos : piece;
+    size_t stop = body.n;
+    if(cb == (body_cb)zck_write_chunk_cb && cfg->abort_at >= 0 && !res->aborted) {
+        res->aborted = 1;
+        if((size_t)cfg->abort_at < body.n) { stop = (size_t)cfg->abort_at; ok = -1; }   /* the connection drops here */
+    }
+    for(size_t pos = 0; pos < stop; pos += piece) {
+        size_t len = stop - pos < piece ? stop - pos : piece;
         blob pc = blob_dup(body.p + pos, len);
         size_t r = cb(pc.p, 1, len, dl);
         blob_free(&pc);
@@ -154,6 +159,7 @@ void update_run(const upd_cfg *cfg, int tfd, upd_res *res) {
         free(rs);
         zck_dl_set_range(dl, NULL);
         zck_range_free(&range);
+        if(ok == -1) { zck_clear_error(tgt); continue; }     /* dropped connection: same zckDL, next round */
         if(!ok) { res->status = UPD_TRANSFER; goto out; }
     }
     if(ftruncate(tfd, zck_get_length(tgt)) < 0) { res->status = UPD_TRUNCATE; goto out; }
